@@ -1267,6 +1267,18 @@ def bd1(ctx, R):
             rel = dotted(x.args[1]) in ("os.SEEK_CUR", "io.SEEK_CUR") or prog.try_fold(x.args[1], callee.module, default=None) == 1
             if rel and d[0] == "binop" and d[1] == "*" and any(find(t, CO) for t in d[2]) and len(d[2]) == 2:
                 ok_seek = True
+        if isinstance(x, ast.Call) and isinstance(x.func, ast.Attribute) and x.func.attr == "seek" and (
+                len(x.args) == 1 or (len(x.args) == 2 and (dotted(x.args[1]) in ("os.SEEK_SET", "io.SEEK_SET") or prog.try_fold(x.args[1], callee.module, default=None) == 0))):
+            # one absolute seek:  data position + chunk size x chunk offset
+            env, _g = sc.env_at(x)
+            d = sc.expr(x.args[0], env)
+            from .sem import leaves as _leaves
+            def _abs_ok(t_):
+                return t_[0] == "binop" and t_[1] == "+" and any(t == ("self", "data_position") for t in t_[2]) and any(
+                    isinstance(t, tuple) and t and t[0] == "binop" and t[1] == "*" and len(t[2]) == 2 and any(find(u, CO) for u in t[2]) for t in t_[2])
+            lv = [lf for _cs, lf in _leaves(d, ())]
+            if lv and any(_abs_ok(lf) for lf in lv) and all(_abs_ok(lf) or lf == ("self", "data_position") for lf in lv):
+                ok_seek = True
     R.check(ok_seek, "tdms_segment.TdmsSegment.read_raw_data_for_channel::seek past leading chunks", callee.where(),
             "seeks chunk_size * chunk_offset bytes past the data start", "leading chunks are not skipped by a relative seek of chunk size x chunk offset")
     inner = [x for x in walk_body(callee.node) if isinstance(x, ast.Call) and (x.args or x.keywords)]
